@@ -146,6 +146,8 @@ def run_path(program, c, prefix, lookup=None):
         pre_objs = snapshot_heap(env)
         ex.frames.pop()
         ex.old_env = old_env
+        ex.old_ghost = dict(ex.ghost.get('g', {}))
+        ex.old_kappa = ex.kappa
         try:
             rv = ex.run_body(func, dict(env), dict(ctypes), self_obj, contract=c)
             outcome = ('return', rv)
